@@ -49,6 +49,6 @@ pub fn replay_dfs<H: Harness + ?Sized>(h: &H, v: &Value) -> Replayed {
         Ok(Verdict::Pass(_)) => Replayed::Pass(trace),
         Ok(Verdict::Fail(f)) => Replayed::Fail { trace, class: f.class, detail: f.detail },
         Err(e) if e.starts_with("BUG: ") => Replayed::Error(e),
-        Err(e) => Replayed::Fail { trace, class: format!("panic: {}", e.chars().take(160).collect::<String>()), detail: e },
+        Err(e) => Replayed::Fail { trace, class: xplore::panic_class(&e), detail: e },
     }
 }
